@@ -114,9 +114,10 @@ DirBook(ws, ln) ==
 \* IN_DELETE belongs to: undetermined.
 ParentReports(ws, ln) ==
   IF ln.op \in {"rep", "par", "rmrf"}
-  THEN [ws EXCEPT !.prepAmb = TRUE,
-                  !.prepU = IF \E k \in 1..Len(ln.shadow) : HasBit(ln.shadow[k].m, IN_DELETE) /\ ln.shadow[k].ino \in DOMAIN ws.uw
-                            THEN @ \cup DOMAIN ws.uw ELSE @]
+  THEN \* the directories of this Watcher that reported some removal in this line; a watched inode may be what one of them
+       \* reported unless it is the only reporter itself (nothing is its own parent: the working directory watched as ".")
+       LET R == {ln.shadow[k].ino : k \in {j \in 1..Len(ln.shadow) : HasBit(ln.shadow[j].m, IN_DELETE) /\ ln.shadow[j].ino \in DOMAIN ws.uw}}
+       IN [ws EXCEPT !.prepU = @ \cup {i \in DOMAIN ws.uw : R \ {i} # {}}]
   ELSE IF ln.op \in {"unlink", "rmdir"} /\ ln.ret = "ok" /\ ln.ino \in DOMAIN ws.uw
           /\ \E k \in 1..Len(ln.shadow) : /\ HasBit(ln.shadow[k].m, IN_DELETE) /\ ln.shadow[k].ino \in DOMAIN ws.uw
                                            /\ ws.uw[ln.shadow[k].ino].st = "live" /\ HasBit(ws.uw[ln.shadow[k].ino].mask, IN_DELETE)
